@@ -134,3 +134,27 @@ claimed["C13"] = (
     "the race detector only sees the interleavings that happen: evidence reports trials, goroutine counts and how many distinct first operations collided; errors are compared by presence; cross-instance ValidateCompatibility is skipped for recursive shapes (C15 known finding)",
     "DESIGN.md §3 C13",
 )
+
+# Round-5 additions to the level texts (what was added to each workload).
+_extra = {
+    "C01": " Inlined one-of members may declare their discriminator as an enum (typed string enum, string enum, int enum); struct pools include fields narrower than the declared bounds and objects built with the typed constructors.",
+    "C02": " Also: maps whose keys are two spellings of one key in four Go map types (size bounds 2..2), and the first use of fresh unit definitions by 8 goroutines through IntSchema.Unserialize, compared with a twin used by one goroutine.",
+    "C03": " Enumerated struct natives are also validated with one field out of bounds and then intact again (state must not leak from a failed validation into the next); an integer the mapped Go field cannot hold must be refused.",
+    "C04": " Also: shorthand cycles through typed objects / typed scopes, valid values of recursive struct-mapped schemas nested up to 400 deep, free-form (any) positions under deep nesting.",
+    "C05": " Sessions also issue empty step IDs and, in error bursts, a run ID a second time while the first run is pending.",
+    "C07": " Scripts also contain work-starts the step refuses followed by valid signals for that run ID, and valid signal data on which the plugin's handler panics.",
+    "C10": " A property whose type is a one-of also receives defaults that select a member by its discriminator (key as number and as text).",
+    "C11": " Handlers are also registered under keys that differ from their own IDs, unknown signal IDs are also handed to the step object directly, and a many-runs round (up to 5 000 other runs between two uses of a run's step data) is included.",
+    "C12": " A directed probe feeds maps whose keys are the same number in different Go integer types; the error returned by the first of 16 evaluations is read again after the others and must read as it did.",
+    "C13": " A directed round validates and serializes valid and invalid struct values from 8 goroutines and is judged by the reference interpreter (not by an earlier call of the same process).",
+    "C14": " Default loops that are closed only by a reference into another namespace must be refused at link time or terminate.",
+    "C15": " Directed pairs include producers built with the typed list / map / object constructors.",
+    "C16": " A first-use round lets 8 goroutines parse and format with a definition nobody has used yet (8 000 definitions in the quick tier) and compares with a twin used by one goroutine; definitions may have a unit with multiplier 1.",
+    "C17": " Free-form (any) values get unsupported leaves below long keys, integer keys and list indices; struct-mapped objects get a directed Unserialize case (required by-value sub-objects left out).",
+    "C18": " Wrong-count argument lists also contain untyped nils (and the nil list).",
+    "C19": " Descriptions span several lines (literal and folded blocks, escapes); later runs start the generator under another program name.",
+}
+for _id, _txt in _extra.items():
+    _c = list(claimed[_id])
+    _c[2] = _c[2] + _txt
+    claimed[_id] = tuple(_c)
